@@ -2,10 +2,18 @@
 source; tools/mkmanifest.py regenerates the manifest from this)."""
 LEVELS = {
     'C03': 'proof',
+    'C04': 'proof',
 }
 EXPLAIN = {}
 NOT_CLAIMED = {}
 CLAIMS = {
+    'C04': dict(
+        engine='symnp (E2)',
+        design_ref='DESIGN.md §6 C04',
+        technique='contract-based deductive verification: sidecar contracts on pseudoinverse/apply of the real classes, symbolic execution over reals; TPS coefficients through a callee contract',
+        text='Two-sided inverse, honest class, swapped source/target and untouched receiver proved for all 12 homogeneous classes in 2-D and 3-D (all real parameters). TPS (3 kernels, N=3,4): interpolation and reverse-fit inverse proved modulo the contract of _build_coefficients (lemma SVD-INV). PWA: vertices both ways on 1 and 2 triangles, left inverse on a generic interior point of one triangle.',
+        note='Reals for floats; lemma SVD-INV and the svd dependency contract are assumed (listed in evidence); PWA/TPS sizes are bounded (N<=4 landmarks, <=2 triangles), values universal; cdist := sqrt of squared distance.',
+    ),
     'C03': dict(
         engine='symnp (E2)',
         design_ref='DESIGN.md §6 C03',
